@@ -2,14 +2,22 @@ import Driver.Loop
 import Driver.C01
 import Driver.C02
 import Driver.C12Mon
+import Driver.Flow
 open Kv
 
-/-- full driver: regenerated model + monitor -/
-def dispatch (prop : String) (l : Line) : String :=
-  match prop with
-  | "C01" => Drv.C01.step l
-  | "C02" => Drv.C02.step l
-  | "C12" => Drv.C12.step l
-  | _ => "bad-op"
+structure DState where
+  c04 : Drv.Flow.FullSt := {}
+  c07 : Drv.Flow.FullSt := {}
+  deriving Inhabited
 
-def main : IO Unit := driverMain dispatch
+/-- full driver: regenerated model + monitor -/
+def dispatch (st : DState) (prop : String) (l : Line) : DState × String :=
+  match prop with
+  | "C01" => (st, Drv.C01.step l)
+  | "C02" => (st, Drv.C02.step l)
+  | "C12" => (st, Drv.C12.step l)
+  | "C04" => let (s, r) := Drv.Flow.step "C04" st.c04 l; ({ st with c04 := s }, r)
+  | "C07" => let (s, r) := Drv.Flow.step "C07" st.c07 l; ({ st with c07 := s }, r)
+  | _ => (st, "bad-op")
+
+def main : IO Unit := driverMain dispatch {}
